@@ -101,7 +101,7 @@ type closureCase struct {
 	Source string `json:"source"`
 }
 
-var closureSources = []string{"uplink-channel-ranges", "downlink-channel-ranges", "rx1-table", "rx1-getter", "rx2-default", "enabled-uplink-data-rates"}
+var closureSources = []string{"uplink-channel-ranges", "downlink-channel-ranges", "rx1-table", "rx1-getter", "rx2-default", "enabled-uplink-data-rates", "enabled-uplink-data-rates-with-extra-channel"}
 
 func checkClosure(c closureCase) evid.Outcome {
 	o, err := c.open()
@@ -177,6 +177,41 @@ func checkClosure(c closureCase) evid.Outcome {
 		for _, d := range o.b.GetEnabledUplinkDataRates() {
 			if f = need(d, 1, "GetEnabledUplinkDataRates"); f != nil {
 				break
+			}
+		}
+	case "enabled-uplink-data-rates-with-extra-channel":
+		// a network adds a channel for one single uplink data-rate (e.g. the FSK data-rate): for every defined uplink
+		// data-rate d, a fresh band with one extra channel [d, d] must hand out only defined data-rates, exactly the union
+		// of the channels' ranges
+		for d, dr := range o.snap.DataRates {
+			if !dr.Uplink {
+				continue
+			}
+			fresh, err := c.open()
+			if err != nil {
+				return evid.Fail("%s: %v", c.Cfg, err)
+			}
+			if fresh.b.AddChannel(868800000, d, d) != nil {
+				continue // fixed channel plan
+			}
+			want := map[int]bool{d: true}
+			for _, ch := range o.snap.UplinkChannels {
+				for i := ch.MinDR; i <= ch.MaxDR; i++ {
+					want[i] = true
+				}
+			}
+			got := fresh.b.GetEnabledUplinkDataRates()
+			for _, g := range got {
+				refs++
+				if _, err := fresh.b.GetDataRate(g); err != nil {
+					return evid.Fail("%s after AddChannel(868.8 MHz, DR%d, DR%d): GetEnabledUplinkDataRates() = %v hands out DR%d, which is not a defined data-rate of the band", c.Cfg, d, d, got, g)
+				}
+				if !want[g] {
+					return evid.Fail("%s after AddChannel(868.8 MHz, DR%d, DR%d): GetEnabledUplinkDataRates() = %v contains DR%d, which no channel allows", c.Cfg, d, d, got, g)
+				}
+			}
+			if len(got) != len(want) {
+				return evid.Fail("%s after AddChannel(868.8 MHz, DR%d, DR%d): GetEnabledUplinkDataRates() = %v, the channels' ranges give %d data-rates", c.Cfg, d, d, got, len(want))
 			}
 		}
 	default:
